@@ -23,6 +23,7 @@ import (
 	_ "github.com/bufbuild/verifharness/internal/imagemodel"
 	_ "github.com/bufbuild/verifharness/internal/managedmodel"
 	_ "github.com/bufbuild/verifharness/internal/pathescape"
+	_ "github.com/bufbuild/verifharness/internal/rulesmodel"
 	_ "github.com/bufbuild/verifharness/internal/sched"
 	_ "github.com/bufbuild/verifharness/internal/storagemodel"
 )
